@@ -17,6 +17,7 @@ type Ctx struct {
 	Opt Options
 
 	reqDepth int
+	scope    map[*ssa.Function]bool // functions of the operation last looked at with OpContexts
 }
 
 // fnOrUnresolved fetches a function by key and records an unresolved anchor when missing.
@@ -79,6 +80,7 @@ func (c *Ctx) OpFuncs(op *ssa.Function) []*ssa.Function {
 			}
 		}
 	}
+	c.scope = seen
 	return out
 }
 
@@ -87,16 +89,37 @@ func (c *Ctx) OpFuncs(op *ssa.Function) []*ssa.Function {
 // arguments).
 func (c *Ctx) OpContexts(op *ssa.Function) []*Origins {
 	var out []*Origins
-	for _, g := range c.OpFuncs(op) {
+	fs := c.OpFuncs(op)
+	for _, g := range fs {
 		if g.Parent() == nil && g != op && c.P.IsNewFunc(g) {
 			for _, site := range c.callersOf(g) {
-				out = append(out, c.P.OriginsOf(site.Parent()).Enter(g, site))
+				if c.scope[site.Parent()] {
+					out = append(out, c.P.OriginsOf(site.Parent()).Enter(g, site))
+				}
 			}
 			continue
 		}
 		out = append(out, c.P.OriginsOf(g))
 	}
 	return out
+}
+
+// sitesInScope keeps the call sites that belong to the operation last looked at with OpContexts (a helper
+// shared by several operations is judged per operation); all sites when none is in scope.
+func (c *Ctx) sitesInScope(sites []ssa.CallInstruction) []ssa.CallInstruction {
+	if c.scope == nil {
+		return sites
+	}
+	var in []ssa.CallInstruction
+	for _, s := range sites {
+		if c.scope[s.Parent()] {
+			in = append(in, s)
+		}
+	}
+	if len(in) == 0 {
+		return sites
+	}
+	return in
 }
 
 // EffectSite is a place in an operation (or one of its closures) where an effect happens: either the
@@ -200,7 +223,7 @@ func (c *Ctx) RequireAt(instr ssa.Instruction, cond *Cond) (bool, string) {
 	// a helper that is new on this tree: the condition may hold inside it once its parameters are read in
 	// the calling context, or before the call - at every call site
 	if fn.Parent() == nil && c.P.IsNewFunc(fn) {
-		sites := c.callersOf(fn)
+		sites := c.sitesInScope(c.callersOf(fn))
 		if len(sites) > 0 && c.reqDepth < 4 {
 			c.reqDepth++
 			defer func() { c.reqDepth-- }()
